@@ -219,6 +219,19 @@ def check(run, ctx):
             else:
                 run.undecided(I8, sym, "operand type not determined")
     run.require(n_i8 >= 1, "no `'*' in <rules>` catch-all test found in the ignore machinery")
+    I9 = run.rule("I9", "DRY applies its suppression filters to the final violation list: the removal of overlapping windows (deduplicate_violations) runs before the first `_filter_*` step", floor=1,
+                  decides="a directive on the reported line silences that violation and leaves the others alone - it cannot uncover the hidden window one line further down")
+    gv = repo.func("src.linters.dry.violation_generator.ViolationGenerator.generate_violations")
+    calls = [n for n in ast.walk(gv.node) if isinstance(n, ast.Call)]
+    calls.sort(key=lambda n: (n.lineno, n.col_offset))
+    dd = [n for n in calls if call_name(n) == "deduplicate_violations"]
+    fl = [n for n in calls if (call_name(n) or "").startswith("_filter_")]
+    run.require(bool(dd) and len(fl) >= 2, f"generate_violations: {len(dd)} de-duplication and {len(fl)} _filter_* steps found (1 and 3 confirmed)")
+    early = [n for n in fl if (n.lineno, n.col_offset) < (dd[0].lineno, dd[0].col_offset)]
+    if early:
+        run.finding(I9, "ViolationGenerator.generate_violations", f"filter-before-dedup:{call_name(early[0])}", f"generate_violations runs {call_name(early[0])} before deduplicate_violations: a directive on the reported line removes the first window of an overlapping run, so de-duplication keeps the next window instead - the violation reappears one line lower and later ones re-align", f"{gv.module.rel}:{early[0].lineno}")
+    else:
+        run.ok(I9, "ViolationGenerator.generate_violations", f"deduplicate_violations, then {[call_name(n) for n in fl]}")
     run.extra["call_resolution"] = f"{cg.n_resolved}/{cg.n_calls}"
     run.extra["rule_classes"] = len(L.rules)
     run.extra["violation_construction_sites"] = len(sinks)
